@@ -77,6 +77,8 @@ def gen_spec(rng, family=None):
                           "points_per_side": 2}
             if family in ("soft_cells_far", "soft_cells_veto"):
                 p["cells"]["max_occupants"] = 1  # the two-leaf-unit cell-bounding handler takes exactly one target
+                if all(c <= 2 * lay + 1 for c in cps):
+                    cps[rng.randrange(dim)] = rng.randint(2 * lay + 2, 6)   # a far family needs at least one non-nearby cell
     else:
         p["potential"] = "hard_sphere"
         p["eoc"] = rng.choice(["sequential", "periodic"])
